@@ -1,10 +1,20 @@
 use core::fmt;
-use std::{cell::RefCell, collections::HashMap};
+use std::{cell::RefCell, cmp::Ordering, collections::HashMap};
 
 use crate::{
     ink_list_item::InkListItem, list_definition::ListDefinition,
     list_definitions_origin::ListDefinitionsOrigin, story_error::StoryError, value_type::ValueType,
 };
+
+/// Total order on list entries: by value, then origin name, then item name.
+///
+/// Used wherever an entry has to be picked or entries have to be listed, so that no
+/// result depends on the iteration order of the underlying `HashMap`.
+pub(crate) fn cmp_entries(a: (&InkListItem, &i32), b: (&InkListItem, &i32)) -> Ordering {
+    a.1.cmp(b.1)
+        .then_with(|| a.0.get_origin_name().cmp(&b.0.get_origin_name()))
+        .then_with(|| a.0.get_item_name().cmp(b.0.get_item_name()))
+}
 
 #[derive(Clone)]
 pub struct InkList {
@@ -70,38 +80,24 @@ impl InkList {
 
     fn get_ordered_items(&self) -> Vec<(&InkListItem, &i32)> {
         let mut ordered: Vec<_> = self.items.iter().collect();
-        ordered.sort_by(|a, b| {
-            if a.1 == b.1 {
-                a.0.get_origin_name().cmp(&b.0.get_origin_name())
-            } else {
-                a.1.cmp(b.1)
-            }
-        });
+        ordered.sort_by(|a, b| cmp_entries(*a, *b));
         ordered
     }
 
     pub fn get_max_item(&self) -> Option<(&InkListItem, i32)> {
-        let mut max: Option<(&InkListItem, i32)> = None;
-
-        for (k, v) in &self.items {
-            if max.is_none() || *v > max.as_ref().unwrap().1 {
-                max = Some((k, *v));
-            }
-        }
-
-        max
+        // Entries with the same value: the one that is listed last wins.
+        self.items
+            .iter()
+            .max_by(|a, b| cmp_entries(*a, *b))
+            .map(|(k, v)| (k, *v))
     }
 
     pub fn get_min_item(&self) -> Option<(&InkListItem, i32)> {
-        let mut min: Option<(&InkListItem, i32)> = None;
-
-        for (k, v) in &self.items {
-            if min.is_none() || *v < min.as_ref().unwrap().1 {
-                min = Some((k, *v));
-            }
-        }
-
-        min
+        // Entries with the same value: the one that is listed first wins.
+        self.items
+            .iter()
+            .min_by(|a, b| cmp_entries(*a, *b))
+            .map(|(k, v)| (k, *v))
     }
 
     pub fn set_initial_origin_names(&self, initial_origin_names: Vec<String>) {
